@@ -461,6 +461,68 @@ def chain_history(rng, hid, n=40, params=None):
     return h
 
 
+def plain_chain_history(rng, hid, n=110, params=None):
+    """C05: acc (register 1) is repeatedly widened with ARBITRARY further values (not joined with acc first):
+         r2 := top; bounds for a subset of the variables; r3 := r1 widen r2 [thresholds]; leq(r3, r1); r1 := r3
+    over 4-5 integer variables declared in a shuffled order (variable indices drive the patricia-tree shapes of the
+    environment domains).  The further values keep bounding variables whose bound acc has already lost, so the right
+    operand has bindings the left one lacks, next to bindings that keep growing."""
+    nv = rng.choice([4, 5])
+    names = ["x", "y", "z", "w", "u"][:nv]
+    order = names[:]      # (indices come from the variable factory of the replaying process; the roles below rotate instead)
+    vars_ = [{"n": nm, "t": "int"} for nm in order]
+    ints = list(range(1, nv + 1))
+    modes = {v: rng.choice(["up", "up", "up", "down", "down", "const", "jump"]) for v in ints}
+    present = {v: rng.choice([1.0, 1.0, 1.0, 1.0, 0.8]) for v in ints}
+    # one or two variables that acc does not bound (never initialised, or lost at the first step) while every further value
+    # does; which ones rotates with the history number so that every variable index takes that role
+    lost = [ints[hid % nv]]
+    if rng.random() < 0.25:
+        lost.append(rng.choice([v for v in ints if v not in lost]))
+    for v in lost:
+        modes[v] = rng.choice(["both", "uninit"])
+        present[v] = 1.0
+    rate = {v: rng.choice([1, 1, 2, 3]) for v in ints}
+    base = {v: rng.randint(-2, 2) for v in ints}
+    ts = sorted(rng.sample(range(-20, 60), 1)) if rng.random() < 0.3 else None
+    steps = []
+    for v in ints:
+        if modes[v] != "uninit" and rng.random() < 0.9:
+            steps.append({"op": "stmt", "r": 1, "s": {"op": "assign", "x": v, "e": {"k": base[v], "t": []}}})
+    rel = rng.random() < 0.4
+    for i in range(1, n + 1):
+        steps.append({"op": "top", "r": 2, "inplace": 0})
+        for v in ints:
+            if rng.random() > present[v]:
+                continue
+            m = modes[v]
+            lo = hi = base[v]
+            if m == "up":
+                hi = base[v] + rate[v] * i
+            elif m == "down":
+                lo = base[v] - rate[v] * i
+            elif m in ("both", "uninit"):
+                lo, hi = base[v] - i, base[v] + rate[v] * i
+            elif m == "jump":       # leaves the start value at once, then stays put: acc loses the bound, x keeps it
+                lo = hi = base[v] + 5
+            steps.append({"op": "stmt", "r": 2, "s": {"op": "assume", "c": {"e": {"k": -hi, "t": [[1, v]]}, "r": "le"}}})
+            steps.append({"op": "stmt", "r": 2, "s": {"op": "assume", "c": {"e": {"k": lo, "t": [[-1, v]]}, "r": "le"}}})
+        if rel and rng.random() < 0.5:
+            a, b = rng.sample(ints, 2)
+            steps.append({"op": "stmt", "r": 2, "s": {"op": "assume", "c": {"e": {"k": -i, "t": [[1, a], [-1, b]]}, "r": "le"}}})
+        w = {"op": "widen", "r": 3, "a": 1, "b": 2}
+        if ts is not None:
+            w["ts"] = ts
+        steps.append(w)
+        steps.append({"op": "leq", "r": 0, "a": 3, "b": 1, "chain": 1})
+        steps.append({"op": "copy", "r": 1, "a": 3})
+    # constraints over nv variables: 2nv unary, nv(nv-1) differences, 2nv(nv-1) - nv(nv-1) = nv(nv-1) more octagonal sums
+    h = {"id": hid, "vars": vars_, "nregs": 3, "steps": steps, "stutter": 0, "chain": 1, "ncons": 2 * nv + 2 * nv * (nv - 1)}
+    if params:
+        h["params"] = params
+    return h
+
+
 def chain_cap(h):
     """bound on the strict increases of a chain: every constraint the domain can hold over the variables of the chain
     is relaxed at most once per threshold and dropped at most once (independent of how far the joined-in values grow)"""
@@ -512,6 +574,44 @@ def point_leq_history(rng, hid, params=None):
         steps.append({"op": "stmt", "r": 2, "s": {"op": "assume", "c": {"e": {"k": rng.randint(-8, 8), "t": t}, "r": rng.choice(["le", "le", "lt", "eq"])}}})
     steps += [{"op": "leq", "r": 0, "a": 1, "b": 2}, {"op": "leq", "r": 0, "a": 2, "b": 1},
               {"op": rng.choice(["join", "meet"]), "r": 2, "a": 1, "b": 2}, {"op": "leq", "r": 0, "a": 1, "b": 2}]
+    h = {"id": hid, "vars": _vars4(), "nregs": 2, "steps": steps, "stutter": 0}
+    if params:
+        h["params"] = params
+    return h
+
+
+def bounds_diff_leq_history(rng, hid, params=None):
+    """directed family (C04): register 1 = bounds on two or three variables plus one or two (weak) difference / sum
+    constraints; register 2 = one or two (stronger or incomparable) difference / sum constraints over the same variables.
+    The inclusion test has to combine explicit relational constraints of the left operand with what its BOUNDS imply;
+    inclusion both ways, then again after a join / meet."""
+    ints = [1, 2, 3, 4]
+    vs = rng.sample(ints, rng.choice([2, 3, 3]))
+    steps = []
+    for v in vs:
+        k = rng.random()
+        if k < 0.8:
+            steps.append({"op": "stmt", "r": 1, "s": {"op": "assume", "c": {"e": {"k": -rng.randint(-2, 2), "t": [[1, v]]}, "r": "le"}}})   # v <= c
+        if k > 0.2:
+            steps.append({"op": "stmt", "r": 1, "s": {"op": "assume", "c": {"e": {"k": rng.randint(-2, 2) - 1, "t": [[-1, v]]}, "r": "le"}}})   # v >= c'
+    rng.shuffle(steps)
+
+    def rel(r, lo, hi):
+        a, b = rng.sample(vs, 2)
+        sa, sb = rng.choice([(1, -1), (1, -1), (-1, 1), (1, 1), (-1, -1)])
+        return {"op": "stmt", "r": r, "s": {"op": "assume", "c": {"e": {"k": rng.randint(lo, hi), "t": [[sa, a], [sb, b]]}, "r": "le"}}}
+    for _ in range(rng.choice([1, 1, 2])):
+        steps.insert(rng.randint(0, len(steps)), rel(1, -3, 1))
+    for _ in range(rng.choice([1, 1, 2])):
+        steps.append(rel(2, -2, 3))
+    if rng.random() < 0.3:
+        v = rng.choice(vs)
+        steps.append({"op": "stmt", "r": 2, "s": {"op": "assume", "c": {"e": {"k": -rng.randint(0, 3), "t": [[rng.choice([1, -1]), v]]}, "r": "le"}}})
+    if rng.random() < 0.3:
+        steps.append({"op": rng.choice(["normalize", "query"]), "r": 1})
+    steps += [{"op": "leq", "r": 0, "a": 1, "b": 2}, {"op": "leq", "r": 0, "a": 2, "b": 1},
+              {"op": rng.choice(["join", "meet"]), "r": 2, "a": 1, "b": 2}, {"op": "leq", "r": 0, "a": 1, "b": 2},
+              {"op": "leq", "r": 0, "a": 2, "b": 1}]
     h = {"id": hid, "vars": _vars4(), "nregs": 2, "steps": steps, "stutter": 0}
     if params:
         h["params"] = params
